@@ -9,8 +9,10 @@ pub mod rel;
 
 pub mod c08;
 
+mod c09;
+
 pub fn dispatch(_cmd: &str, _a: &Args) -> bool {
-    if c08::dispatch(_cmd, _a) {
+    if c08::dispatch(_cmd, _a) || c09::dispatch(_cmd, _a) {
         return true;
     }
     match _cmd {
